@@ -2,9 +2,11 @@
 From Coq Require Extraction.
 From Coq Require Import ExtrOcamlBasic.
 From SQ Require Import lib.Base.
-From SQ Require model.Cubic.
+From SQ Require model.Cubic model.Bbr.
 Extraction Language OCaml.
 
 Definition cubic_run := Cubic.run.
 Definition cubic_judge := Cubic.judge.
-Extraction "../ocaml/gen/C10/model.ml" cubic_run cubic_judge.
+Definition bbr_run := Bbr.run.
+Definition bbr_judge := Bbr.judge.
+Extraction "../ocaml/gen/C10/model.ml" cubic_run cubic_judge bbr_run bbr_judge.
